@@ -365,6 +365,17 @@ func IndentByParentheses(s string) string {
 			if prev != comment {
 				prev = space
 			}
+		case c == '"':
+			// a string literal is copied verbatim up to its closing quote:
+			// spaces, parentheses and semicolons inside it belong to the literal
+			appendRune(c, prev, indent)
+			for i++; i < len(A); i++ {
+				sb.WriteRune(A[i])
+				if A[i] == '"' {
+					break
+				}
+			}
+			prev = normal
 		case c == ';':
 			if prev == comment {
 				appendIndent(indent)
